@@ -15,11 +15,12 @@ says a `visible` frame taller than the screen "cannot be properly cleared"); a t
 one free row for the line feed `stop` writes before erasing.
 
 The screen theorems are about the code with the argument-less `print()` routed through the render
-hooks (`bareBypass = false`); `old_bare_print_leaves_remnant` is the machine-checked witness that the code
-as it stands (`bareBypass = true`) breaks them.  Likewise `cleanup_on_exception` needs the guarded
-`Progress.start` (`startGuard = true`) and `old_progress_start_leaks` is the witness for today's code.
+hooks (`bareBypass = false`); `old_bare_print_leaves_remnant` is the machine-checked witness that rich 9.10.0
+as found, before fix b373465 (`bareBypass = true`), breaks them.  Likewise `cleanup_on_exception` needs the guarded
+`Progress.start` (`startGuard = true`, fix 4e4f7e5) and `old_progress_start_leaks` is the witness for the as-found code.
 `live_screen` speaks about one session (`stop` last); what goes wrong when a stopped display is started
-again with today's `stop` is witnessed by `old_restart_erases_printed_lines` (`resetShape = false`).
+again with the as-found `stop` (before fix b4577f9) is witnessed by `old_restart_erases_printed_lines`
+(`resetShape = false`).  /repo contains the three repairs: `bareBypass = false`, `startGuard = true`, `resetShape = true`.
 -/
 namespace RichModel.C10
 open RichModel RichModel.Screen RichModel.Live
@@ -40,7 +41,7 @@ started again (with the repaired `stop`, `resetShape = true`),
 where `finished` interleaves the printed lines with the final frames of the earlier non-transient
 sessions.  The invariant `Good` is re-established by the repaired `stop` (shape = none, nothing on
 display), so the induction of `history_main` would go through session by session; what is missing is the
-bookkeeping of `finished` in `View`.  Today this case is covered by the model + per-operation
+bookkeeping of `finished` in `View`.  At present this case is covered by the model + per-operation
 correspondence + direct evaluation on real rich, and by the witness `old_restart_erases_printed_lines`. -/
 
 /-- **cursor_never_above_region.**  For every operation of a well-formed history, while its output is
@@ -142,11 +143,11 @@ theorem run_balanced (cfg : Cfg) (fails : Nat → Bool) (ops : List Op) :
     have := ih _ (step_ctl cfg fails st op h (!st.started) rfl).1
     simpa [run] using this
 
-/-! ## Witnesses: the defects of the code as it stands (machine-checked negations) -/
+/-! ## Witnesses: the defects of rich 9.10.0 as found, all repaired in /repo since (machine-checked negations) -/
 
 def cfgLive : Cfg := { kind := .live, transient := false, width := 20, height := 6 }
 
-/-- F19.  Today's code (`bareBypass = true`): `console.print()` under a Live moves the cursor without
+/-- F19.  rich 9.10.0 as found, before fix b373465 (`bareBypass = true`): `console.print()` under a Live moves the cursor without
 telling the display; the next refresh erases one row too low and the first line of the old frame stays
 on the screen — `L1 / M1 / M2` instead of an empty line followed by `M1 / M2`. -/
 theorem old_bare_print_leaves_remnant :
@@ -160,7 +161,7 @@ theorem old_bare_print_leaves_remnant :
 
 def cfgProgress : Cfg := { kind := .progress, transient := false, width := 20, height := 6 }
 
-/-- Today's `Progress.start` (`startGuard = false`): when the first refresh inside `start()` raises,
+/-- The `Progress.start` of rich 9.10.0 as found, before fix 4e4f7e5 (`startGuard = false`): when the first refresh inside `start()` raises,
 `__enter__` never returns, `__exit__` is never called, and the hook, the redirection of `sys.stdout` /
 `sys.stderr` and the hidden cursor all stay behind. -/
 theorem old_progress_start_leaks :
@@ -179,7 +180,7 @@ example :
   decide
 
 
-/-- Restart.  Today's `stop` (`resetShape = false`) keeps the shape of the frame it leaves behind: after
+/-- Restart.  The `stop` of rich 9.10.0 as found, before fix b4577f9 (`resetShape = false`) keeps the shape of the frame it leaves behind: after
 `start; refresh; stop; print "b"; start; update` the new session erases upwards over finished output —
 the last frame line `3` and the printed line `b` are gone. -/
 theorem old_restart_erases_printed_lines :
